@@ -132,6 +132,9 @@ func StreamParse(r io.Reader, sr *SchedReader, input []byte, rewrite bool) *Stre
 	p := cm.NewBlockParser(r)
 	var li lineIndex
 	if sr != nil {
+		if sr.FailAt >= 0 && sr.FailAt < len(input) && !sr.ContinueAfterFail {
+			input = input[:sr.FailAt] // what the reader actually delivers
+		}
 		li = newLineIndex(input)
 	}
 	check := func() {
